@@ -23,7 +23,9 @@ type scen struct {
 	early bool // timers may overtake runnable threads (hook timeout racing with the hook)
 }
 
-func (s scen) name() string { return fmt.Sprintf("runtime=%s B=%d early-expiry=%v", s.rt, s.bound, s.early) }
+func (s scen) name() string {
+	return fmt.Sprintf("runtime=%s B=%d early-expiry=%v", s.rt, s.bound, s.early)
+}
 
 type rec struct {
 	res      *stack.RestoreResult
